@@ -706,12 +706,53 @@ def corpus_worker(pid, outpath):
 
 
 def replay(pid, path):
+    """Replays one saved case in a crash-isolated child process."""
     from . import build
     try:
         build.ensure_built()
     except RuntimeError as e:
         print("HARNESS-ERROR: build failed\n%s" % e)
         return 2
+    workdir = os.path.join(VERIF, ".cache", "replay-%s-%d" % (pid, os.getpid()))
+    os.makedirs(workdir, exist_ok=True)
+    out = os.path.join(workdir, "result.json")
+    p = _spawn(["--replay-worker", pid, os.path.abspath(path), out], workdir, "replay")
+    try:
+        p.wait(timeout=3000)
+    except subprocess.TimeoutExpired:
+        p.kill()
+        print("replay %s: inconclusive (timeout)" % path)
+        _rmtree(workdir)
+        return 0
+    rc = 2
+    if os.path.exists(out):
+        with open(out) as f:
+            r = json.load(f)
+        status, info = r["status"], r["info"]
+        if status == "violation":
+            print("VIOLATION property=%s replay=%s" % (pid, path))
+            print("  " + str(info)[:800])
+            rc = 1
+        elif status == "known":
+            print("KNOWN-FINDING: property=%s key=%s" % (pid, info))
+            rc = 0
+        elif status == "harness":
+            print("HARNESS-ERROR: %s" % info)
+            rc = 2
+        else:
+            print("replay %s: %s" % (path, status))
+            rc = 0
+    elif p.returncode is not None and p.returncode < 0:
+        print("VIOLATION property=%s replay=%s" % (pid, path))
+        print("  interpreter died with signal %d" % (-p.returncode))
+        rc = 1
+    else:
+        print("HARNESS-ERROR: replay worker exited rc=%s: %s" % (p.returncode, _tail(os.path.join(workdir, "replay.log"))))
+    _rmtree(workdir)
+    return rc
+
+
+def replay_worker(pid, path, outpath):
     mod = load_prop(pid)
     with open(path) as f:
         c = json.load(f)
@@ -719,15 +760,5 @@ def replay(pid, path):
     if sub.setup is not None:
         sub.setup("quick")
     status, ctx, info = run_case(mod, sub, c["spec"], load_findings(pid))
-    if status == "violation":
-        print("VIOLATION property=%s replay=%s" % (pid, path))
-        print("  " + str(info)[:800])
-        return 1
-    if status == "known":
-        print("KNOWN-FINDING: property=%s key=%s" % (pid, info))
-        return 0
-    if status == "harness":
-        print("HARNESS-ERROR: %s" % info)
-        return 2
-    print("replay %s: %s" % (path, status))
-    return 0
+    with open(outpath, "w") as f:
+        json.dump({"status": status, "info": str(info) if info is not None else None}, f)
